@@ -44,9 +44,15 @@ func checkC15(c *Ctx) {
 			if mu, ok := ins.(*ssa.MapUpdate); ok && loadOfGlobal(mu.Map) != nil {
 				seenInit++
 			}
+			if st, ok := ins.(*ssa.Store); ok {
+				if _, isG := st.Addr.(*ssa.Global); isG {
+					seenInit++
+				}
+			}
 		})
 	}
-	c.Check(seenInit >= 14, "C15-R1", "positive-control(init writes tables)", token.NoPos, fmt.Sprintf("the detector sees %d table writes inside init", seenInit), "the global-write detector does not see the init-time table writes (it would pass vacuously)")
+	// (today: 14 map updates and 7 assignments; a table may also be filled before it is assigned)
+	c.Check(seenInit >= 7, "C15-R1", "positive-control(init writes tables)", token.NoPos, fmt.Sprintf("the detector sees %d table writes inside init", seenInit), "the global-write detector does not see the init-time table writes (it would pass vacuously)")
 
 	// ---- R2 raw buffers are never written
 	_ = P.Field("rtcm/handler", "Message", "RawData")
